@@ -30,6 +30,8 @@ enum Kind {
     WrongIface,
     WrongMember,
     WrongArgs,
+    /// the interface field is left out (legal: the server may pick the interface or refuse)
+    NoIface,
 }
 
 struct Sent {
@@ -72,7 +74,8 @@ pub fn c26_case(src: &mut Src, obs: &mut Obs) -> CaseResult {
         regs.push((p, i));
     }
     sv.settle();
-    let ncalls = 1 + src.below(5);
+    let noiface_case = src.chance(16);
+    let ncalls = if noiface_case { 1 } else { 1 + src.below(5) };
     let mut sent: Vec<Sent> = vec![];
     for _ in 0..ncalls {
         let (path, ii) = regs[src.below(regs.len())];
@@ -80,14 +83,20 @@ pub fn c26_case(src: &mut Src, obs: &mut Obs) -> CaseResult {
         let mi = src.below(e.methods.len());
         let m = &e.methods[mi];
         let spec = (m.gen_call)(src);
-        let kind = match src.weighted(&[6, 1, 1, 1, 2]) {
-            0 => Kind::Valid,
-            1 => Kind::WrongPath,
-            2 => Kind::WrongIface,
-            3 => Kind::WrongMember,
-            _ => Kind::WrongArgs,
+        // (a call without interface field is the only call of its case: whether it was delivered is
+        // read from the handler log)
+        let kind = if noiface_case {
+            Kind::NoIface
+        } else {
+            match src.weighted(&[6, 1, 1, 1, 2]) {
+                0 => Kind::Valid,
+                1 => Kind::WrongPath,
+                2 => Kind::WrongIface,
+                3 => Kind::WrongMember,
+                _ => Kind::WrongArgs,
+            }
         };
-        let noreply = src.chance(50);
+        let noreply = src.chance(50) && kind != Kind::NoIface;
         let mut p = path.to_string();
         let mut iname = e.name.to_string();
         let mut member = m.member.to_string();
@@ -97,6 +106,9 @@ pub fn c26_case(src: &mut Src, obs: &mut Obs) -> CaseResult {
         let mut kind = kind;
         match kind {
             Kind::Valid => {}
+            Kind::NoIface => {
+                what = "no interface field".into();
+            }
             Kind::WrongPath => {
                 let cands: Vec<&str> = ["/gen", "/gen/a", "/gen/a/b", "/other", "/", "/nowhere", "/gen/ab", "/gen/a/b/c"].into_iter().filter(|c| !regs.iter().any(|r| r.0 == *c && r.1 == ii)).collect();
                 p = cands[src.below(cands.len())].to_string();
@@ -134,8 +146,11 @@ pub fn c26_case(src: &mut Src, obs: &mut Obs) -> CaseResult {
                 what = format!("member {member} instead of {}", m.member);
             }
             Kind::WrongArgs => {
-                let mode = src.below(3);
-                if mode == 0 && !args.is_empty() {
+                let mode = src.below(4);
+                if mode == 3 && !args.is_empty() {
+                    args = vec![RVal::St(args)];
+                    what = "arguments wrapped into one structure".into();
+                } else if mode == 0 && !args.is_empty() {
                     args.pop();
                     what = "last argument missing".into();
                 } else if mode == 1 && !args.is_empty() {
@@ -153,7 +168,7 @@ pub fn c26_case(src: &mut Src, obs: &mut Obs) -> CaseResult {
         } else if kind == Kind::WrongArgs && args.iter().map(|a| a.sig().to_string()).collect::<String>() == m.in_sigs.concat() {
             kind = Kind::Valid;
         }
-        let mut c = sv.peer.call(&p, Some(&iname), &member, args);
+        let mut c = sv.peer.call(&p, if kind == Kind::NoIface { None } else { Some(&iname) }, &member, args);
         if noreply {
             c.flags |= 1;
         }
@@ -202,8 +217,17 @@ pub fn c26_case(src: &mut Src, obs: &mut Obs) -> CaseResult {
     // handler invocations: exactly the valid calls
     let log = sv.log.lock().unwrap().clone();
     let mut want_log: HashMap<String, usize> = HashMap::new();
+    // (arguments sent as one structure holding them are not the declared arguments: a known finding
+    // when the handler runs all the same)
     for s in &sent {
-        if s.kind == Kind::Valid {
+        if s.what == "arguments wrapped into one structure" && s.kind == Kind::WrongArgs && log.iter().any(|l| *l == s.label) {
+            return Err(Failure::keyed("dispatch-args-in-one-struct-accepted", format!("the handler ran for a call whose body is one structure holding the arguments (signature {:?}) instead of the arguments (declared {:?}); call {}.{} [{}]", s.msg.body_signature(), ifs[s.iface].methods[s.method].in_sigs.concat(), ifs[s.iface].name, ifs[s.iface].methods[s.method].member, s.what)));
+        }
+    }
+    for s in &sent {
+        // a call without interface field counts as valid if the server chose to deliver it
+        let delivered = s.kind == Kind::NoIface && log.iter().any(|l| *l == s.label);
+        if s.kind == Kind::Valid || delivered {
             *want_log.entry(s.label.clone()).or_default() += 1;
             if ifs[s.iface].methods[s.method].header {
                 *want_log.entry(format!("hdr|{}|{}", ifs[s.iface].methods[s.method].member, s.msg.serial)).or_default() += 1;
@@ -230,7 +254,8 @@ pub fn c26_case(src: &mut Src, obs: &mut Obs) -> CaseResult {
         if !ok_n {
             return Err(Failure::new(format!("{} replies instead of {}: {:?}; {}", rs.len(), if s.noreply { "none" } else { "one" }, rs.iter().map(|r| show_msg(r)).collect::<Vec<_>>(), describe(i))));
         }
-        if s.kind == Kind::Valid {
+        let delivered = s.kind == Kind::NoIface && log.iter().any(|l| *l == s.label);
+        if s.kind == Kind::Valid || delivered {
             if let Some(f) = m.expect_signal {
                 want_signals += 1;
                 let want = f(&s.label);
@@ -242,7 +267,7 @@ pub fn c26_case(src: &mut Src, obs: &mut Obs) -> CaseResult {
             }
         }
         let Some(r) = rs.first() else { continue };
-        match s.kind {
+        match if delivered { Kind::Valid } else { s.kind } {
             Kind::Valid => match (m.expect)(&s.label) {
                 Ok(body) => {
                     if r.mtype != msg::T_RETURN {
@@ -267,11 +292,12 @@ pub fn c26_case(src: &mut Src, obs: &mut Obs) -> CaseResult {
                     Kind::WrongPath => vec!["org.freedesktop.DBus.Error.UnknownObject"],
                     Kind::WrongIface => vec!["org.freedesktop.DBus.Error.UnknownInterface"],
                     Kind::WrongMember => vec!["org.freedesktop.DBus.Error.UnknownMethod"],
+                    Kind::NoIface => vec!["org.freedesktop.DBus.Error.UnknownObject", "org.freedesktop.DBus.Error.UnknownInterface", "org.freedesktop.DBus.Error.UnknownMethod", "org.freedesktop.DBus.Error.InvalidArgs"],
                     _ => vec!["org.freedesktop.DBus.Error.InvalidArgs"],
                 };
                 let name = r.get_str(msg::F_ERROR_NAME).unwrap_or("");
                 if r.mtype != msg::T_ERROR || !allowed.contains(&name) {
-                    let key = if s.kind == Kind::WrongArgs && r.mtype == msg::T_ERROR { format!("wrong-args-error-{name}") } else { String::new() };
+                    let key = if s.kind == Kind::WrongArgs && r.mtype == msg::T_ERROR { format!("wrong-args-error-{name}") } else if s.kind == Kind::NoIface { "no-interface-field-nonstandard-error".to_string() } else { String::new() };
                     let text = format!("answered with {} instead of {}; {}", show_msg(r), allowed.join(" / "), describe(i));
                     return Err(if key.is_empty() { Failure::new(text) } else { Failure::keyed(key, text) });
                 }
@@ -294,7 +320,11 @@ pub fn c26_case(src: &mut Src, obs: &mut Obs) -> CaseResult {
             Kind::WrongIface => "wrong-interface",
             Kind::WrongMember => "wrong-member",
             Kind::WrongArgs => "wrong-arguments",
+            Kind::NoIface => "no-interface-field",
         });
+        if s.what == "arguments wrapped into one structure" {
+            obs.label("arguments-wrapped-into-one-structure");
+        }
         if s.noreply {
             obs.label("no-reply-flag");
         }
